@@ -53,6 +53,10 @@ func c03Emit(c *Ctx) {
 				c.Inconclusive("could not avoid the K1 witness class for " + ops[oi].name)
 			}
 			c.Eval(true, []byte("machine-assignment"), []byte(ops[oi].name), []byte(fmt.Sprint(k)), ins[oi].Image())
+			if hasZeroLowXLimb(&ins[oi]) {
+				ins[oi].Class += " [point-input-with-zero-low-X-limb]"
+				c.Tally("machine-level (assignment, entry point) pairs in the zero-low-X-limb class")
+			}
 		}
 		write(fmt.Sprint(k), ins)
 		c.Tally("machine-level assignments emitted")
